@@ -214,6 +214,7 @@ TxOf(ev) ==
 \* it lets the bounded models aim schedules at operations that meet such a key again (Goals.tla).
 Ghosts(s0, s1) ==
      UNION { { <<k, s1[k].ch[i].id, s1[k].ch[i].owner>> : i \in (DOMAIN s1[k].ch) \ (DOMAIN s0[k].ch) } : k \in {"wrk", "bcn"} }
+  \cup UNION { { <<k \o "-limit", s1[k].ch[i].id, "-">> : i \in { j \in (DOMAIN s1[k].ch) \cap (DOMAIN s0[k].ch) : s1[k].ch[j].limit # s0[k].ch[j].limit } } : k \in {"wrk", "bcn"} }
   \cup { <<"po", s1.ent.po[i].id, s1.ent.po[i].pur>> : i \in (DOMAIN s1.ent.po) \ (DOMAIN s0.ent.po) }
   \cup { <<"str", key, "-">> : key \in (DOMAIN s1.str.s) \ (DOMAIN s0.str.s) }
 
